@@ -137,7 +137,7 @@ def facts_dir(cfgset="default+uring", log=None):
         lock.close()
 
 
-def prune(root, keep, maxn=6):
+def prune(root, keep, maxn=30):
     """Bound the disk used by cached fact sets."""
     try:
         ds = [d for d in os.listdir(root) if d != keep and os.path.isdir(os.path.join(root, d))]
